@@ -58,7 +58,8 @@ func VerifC08_q_bindAllOrNothing() {
 	// purpose: the retried bind re-uses them)
 	w.faultKinds = map[string]bool{"create": true}
 	w.calls, w.faultAt = 0, nondetInt(0, 4)
-	berr := w.bind(name, approved[nondetChoice(len(approved))])
+	node := approved[nondetChoice(len(approved))]
+	berr := w.bind(name, node)
 	w.faultAt = 0
 	verifReach("bind-returned")
 	after := w.dump()
@@ -74,6 +75,11 @@ func VerifC08_q_bindAllOrNothing() {
 	verifAssert("C08/bind-one-ip-per-range", len(ips) == k, "a successful Bind did not report one IP per requested range")
 	for i := 0; i < k && i < len(ips); i++ {
 		verifAssert("C08/bind-request-order", ips[i] == order[i], "the i-th reported IP is not the one of the i-th requested range")
+	}
+	for _, ip := range ips {
+		// routable: the pool that defines the address (from the configuration, not from the tables) lists the node's subnet
+		x, ok := floatingip.VerifExpect(w.topo, ip)
+		verifAssert("C08/bind-all-routable", ok && vpHas(x.NodeSubnets, vpNodeSubnet[node]), "the pod was bound on "+node+" with "+ip+", which is not routable from that node")
 	}
 	verifAssert("C08/bind-agree", w.agree(), "memory and store disagree after the Bind")
 }
